@@ -100,7 +100,7 @@ func c26Seeds() []elfgen.File {
 
 func init() {
 	checks["C26"] = eng.Check{
-		Rule: "the real mltwist binary (built from the working tree) run as a process with stdin=/dev/null under a 4 GiB address-space limit and a 20 s timeout on: (a) ELF files with RISC-V payloads over {valid code, undecodable word, truncated word, jump outside the code, entry outside the code, no executable section, no loadable segment, overlapping segments} x types; (b) every truncation length and every single-byte substitution {00, ff, ~b} of every header byte (ELF header, program headers, section headers) of two valid seed files; (c) memsz in {2^31, 2^36, 2^62, 2^63, 2^64-1}, filesz > file, section/segment addresses at the top of the address space; (d) argument vectors of length 0, 2, 3, a missing file, a directory, an empty file; plus the two seed files under a pseudo-terminal (UI must be entered and 'q' must exit 0). Oracle: exit status 1 with a 'mltwist: ' message (or UI entered), never a Go panic/fatal error, signal or timeout. Non-trivial = runs ending with the error exit.",
+		Rule:        "the real mltwist binary (built from the working tree) run as a process with stdin=/dev/null under a 4 GiB address-space limit and a 20 s timeout on: (a) ELF files with RISC-V payloads over {valid code, undecodable word, truncated word, jump outside the code, entry outside the code, no executable section, no loadable segment, overlapping segments} x types; (b) every truncation length and every single-byte substitution {00, ff, ~b} of every header byte (ELF header, program headers, section headers) of two valid seed files; (c) memsz in {2^31, 2^36, 2^62, 2^63, 2^64-1}, filesz > file, section/segment addresses at the top of the address space; (d) argument vectors of length 0, 2, 3, a missing file, a directory, an empty file; plus the two seed files under a pseudo-terminal (UI must be entered and 'q' must exit 0). Oracle: exit status 1 with a 'mltwist: ' message (or UI entered), never a Go panic/fatal error, signal or timeout. Non-trivial = runs ending with the error exit.",
 		Assumptions: []string{"with stdin=/dev/null a file that loads ends in 'cannot get terminal size' (exit 1), which counts as a regular error exit; the pty runs confirm that valid files do enter the UI"},
 		Run: func(r *eng.Run) {
 			dir, err := os.MkdirTemp("", "vc26")
